@@ -1325,7 +1325,7 @@ theorem reconnectToPeers_GI (S : SI) (x : Option NAddr) (env : CryptoEnv) (o : O
     GIx S x (reconnectToPeers env o c now) := by
   unfold reconnectToPeers
   simp only []
-  have h1 : GIx S x (c.node.reconnect.foldl (fun c e => if e.next > now then c else connect env o c e.resolved) c) := by
+  have h1 : GIx S x (c.node.reconnect.foldl (fun c e => if Generated.reconnectNotDue e.next now then c else connect env o c e.resolved) c) := by
     apply foldl_inv (GIx S x) _ _ _ _ h
     intro c e hc
     split
@@ -1697,14 +1697,14 @@ theorem cryptoHousekeep_GI (S : SI) (env : CryptoEnv) (o : Oracle) (c : Ctx) (no
 /-! ### `housekeep` in stages -/
 
 def hkDead (env : CryptoEnv) (o : Oracle) (n : Node) (now : Int) : Ctx :=
-  ((n.peers.filter (fun (_, p) => p.timeout < now)).map (·.1)).foldl (fun c a =>
+  ((n.peers.filter (fun (_, p) => Generated.peerExpired p.timeout now)).map (·.1)).foldl (fun c a =>
     let n := c.node
     connectSock env o { c with node := { n with peers := eraseA n.peers a, table := n.table.removeClaims now (addrId a) } } a) { node := n }
 
 def hkSweep (c1 : Ctx) (now : Int) : Ctx := { c1 with node := { c1.node with table := c1.node.table.housekeep now } }
 
 def hkAnnounce (o : Oracle) (c3 : Ctx) (now : Int) : Ctx :=
-  if c3.node.nextPeers ≤ now then
+  if Generated.announceDue c3.node.nextPeers now then
     let info := Codec.encodeNodeInfo (createNodeInfo c3.node)
     let c' := broadcastMsg o c3 Generated.MESSAGE_TYPE_NODE_INFO info
     let minPt := (c'.node.peers.map (fun (_, p) => p.peerTimeout)).foldl min (if c'.node.peers.isEmpty then Generated.DEFAULT_PEER_TIMEOUT else 65535)
@@ -1714,7 +1714,7 @@ def hkAnnounce (o : Oracle) (c3 : Ctx) (now : Int) : Ctx :=
   else c3
 
 def hkOwn (c5 : Ctx) (now : Int) : Ctx :=
-  if c5.node.nextOwnReset ≤ now then
+  if Generated.ownResetDue c5.node.nextOwnReset now then
     { c5 with node := { c5.node with own := c5.node.cfg.advertise ++ [c5.node.addr], nextOwnReset := now + 300 } }
   else c5
 
